@@ -545,6 +545,26 @@ pub fn run(tier: Tier) -> ! {
                 total.viol.add("", || Violation { key: String::new(), summary: format!("unwritable target ({what}): generate_compiled_automata_as_dot returned {outcome}, expected an error"), replay: json!({"target": what, "path": t.display().to_string(), "outcome": outcome}) });
             }
         }
+        // the file of ONE mode cannot be created (a directory has its name), for every position of
+        // that mode: the call must report it, whatever happens to the other modes' files
+        let names = ["FIRST", "MIDDLE", "LAST"];
+        let three = Cfg { modes: names.iter().enumerate().map(|(i, n)| CMode { name: n.to_string(), pats: vec![CPat::new("a", i)], transitions: vec![] }).collect() }.build_uncached().unwrap();
+        for (k, n) in names.iter().enumerate() {
+            total.cfgs += 1;
+            let folder = dir.join(format!("blocked-{k}"));
+            std::fs::create_dir_all(folder.join(format!("Q_{n}.dot"))).unwrap();
+            let r = catch(|| three.generate_compiled_automata_as_dot("Q", &folder));
+            let outcome = match &r {
+                Err(p) => format!("panic: {p}"),
+                Ok(Ok(())) => "Ok".to_string(),
+                Ok(Err(_)) => "Err".to_string(),
+            };
+            let what = format!("a directory named Q_{n}.dot blocks the file of mode {k} of 3");
+            faults.push(json!({"target": what, "outcome": outcome}));
+            if outcome != "Err" {
+                total.viol.add("", || Violation { key: String::new(), summary: format!("unwritable target ({what}): generate_compiled_automata_as_dot returned {outcome}, expected an error"), replay: json!({"target": what, "modes": names, "prefix": "Q", "outcome": outcome}) });
+            }
+        }
         #[cfg(unix)]
         {
             use std::os::unix::fs::PermissionsExt;
